@@ -53,7 +53,12 @@ def complete_parses(parser, grammar_start, pieces, mode="complete"):
     parser.new_parse(grammar_start, ParsingMode.COMPLETE if mode == "complete" else ParsingMode.INCOMPLETE)
     last = []
     for k, piece in enumerate(pieces):
-        got = list(parser.consume(piece))
+        try:
+            got = list(parser.consume(piece))
+        except RecursionError:
+            raise
+        except Exception as e:          # noqa: BLE001  (a parser crash is part of the compared outcome)
+            return ["raises " + type(e).__name__]
         if k == len(pieces) - 1:
             last = got
     return sorted({tree_key(parser, t) for t, complete in last if complete})
